@@ -178,10 +178,10 @@ def exchange_library():
     L["get3"] = dict(q=q, s=s, n=3, exps={i: (b"body%d" % i, 5) for i in range(3)})
     q = [R(b"GET", b"/r0", H), R(b"POST", b"/r1", H, body=b"abc"), R(b"GET", b"/r2", H)]
     s = [A(200, hdrs=[(b"X-Id", b"0")], body=b"1"), A(204, b"No", hdrs=[(b"X-Id", b"1")]), A(200, hdrs=[(b"X-Id", b"2")], chunked=[b"3", b"xy"])]
-    L["pipe3"] = dict(q=q, s=s, n=3, expq={1: (b"abc", 3)}, exps={0: (b"1", 1), 2: (b"3xy", 17)})
+    L["pipe3"] = dict(q=q, s=s, n=3, expq={1: (b"abc", 3)}, exps={0: (b"1", 1), 2: (b"3xy", 16)})
     q = [R(b"POST", b"/r0", H + [(b"Content-Type", b"application/x-www-form-urlencoded")], chunked=[b"a=1&", b"b=2"]), R(b"HEAD", b"/r1", H)]
     s = [A(200, hdrs=[(b"X-Id", b"0")], body=b"\r\nGET / HTTP/1.1\r\n\x00"), A(200, hdrs=[(b"X-Id", b"1"), (b"Content-Length", b"10")])]
-    L["post_head"] = dict(q=q, s=s, n=2, expq={0: (b"a=1&b=2", 22)}, exps={0: (b"\r\nGET / HTTP/1.1\r\n\x00", 21)})
+    L["post_head"] = dict(q=q, s=s, n=2, expq={0: (b"a=1&b=2", 20)}, exps={0: (b"\r\nGET / HTTP/1.1\r\n\x00", 19)})
     q = [R(b"GET", b"/r0", H, ver=b"HTTP/1.0")]
     s = [A(200, hdrs=[(b"X-Id", b"0")], ver=b"HTTP/1.0") + b"closed-delimited body\r\n\r\nmore"]
     L["close_delim"] = dict(q=q, s=s, n=1, exps={0: (b"closed-delimited body\r\n\r\nmore", 29)})
